@@ -39,6 +39,7 @@ FIXED = [
     ("C17", "725b9c0", "when the reader of stdout closed the pipe, `into html`/`into json` (footer) and grouped output hit unwrap() on the BrokenPipe error: panic message, status 101", ["pipe-html-streamed", "pipe-json-ordered"]),
     ("C18", "c679315", "with `symlinks` a relative link target was resolved against the process cwd instead of the link's directory (`a/b/up -> ..` walked the parent of the cwd; deeper relative links failed to canonicalize), and a link to a regular file was entered as a directory (`Not a directory`, status 1)", ["relative-up-from-depth-2", "relative-sibling-dir-deep", "link-to-file", "outside-and-cycle"]),
     ("C18", "017fff0", "with `symlinks` a directory reachable directly and through a link (or through two links) was listed once per spelling of its path", ["dir-direct-and-via-link"]),
+    ("C19", "2e20137", "an `archives` search panicked when the current date is the 31st or 29 February and a member's stored month has no such day (member time built from Local::now() with fields replaced one by one)", ["clock-on-the-31st", "clock-on-feb-29"]),
 ]
 
 OPEN = [
